@@ -52,28 +52,28 @@ theorem srcOK_of_reconcile (x y : Option C) (z : Option (Fp C)) (act : Action)
       | none => simp [reconcilePath, srcOK]
       | some zv => simp only [reconcilePath, Option.map_some, Option.map_none]; split <;> simp [srcOK]
     | some yb =>
-      generalize reconcilePath (Option.map mkFp (some xa)) (Option.map mkFp (some yb)) z = act
-      cases act <;> simp [srcOK]
+      simp only [reconcilePath, Option.map_some]
+      split
+      · split
+        · split <;> simp [srcOK]
+        · simp [srcOK]
+      · cases z with
+        | none => simp [srcOK]
+        | some zv =>
+          simp only []
+          cases h1 : !Fp.same (mkFp xa) zv <;> cases h2 : !Fp.same (mkFp yb) zv <;> simp [srcOK]
 
-theorem run_plan (ge : C → C → Bool) (cname : P → C → P) (A0 B0 : Tree P C) (z : P → Option (Fp C))
+/-- one step of the apply loop under NoNameClash: the next plan entry finds its path untouched, `apply`
+succeeds, and the run invariant extends by that entry -/
+theorem run_step (ge : C → C → Bool) (cname : P → C → P) (A0 B0 : Tree P C) (z : P → Option (Fp C))
     (plan : List (P × Action))
     (hact : ∀ p act, (p, act) ∈ plan → act = reconcilePath ((get A0 p).map mkFp) ((get B0 p).map mkFp) (z p))
     (hlive : ∀ p act, (p, act) ∈ plan → get A0 p ≠ none ∨ get B0 p ≠ none)
-    (hnd : (plan.map (·.1)).Nodup) (nnc : NoNameClash ge cname A0 B0 plan) :
-    ∀ (todo done : List (P × Action)) (l : Live P C) (n : Nat), plan = done ++ todo →
-      RunInv ge cname A0 B0 done l →
-      ∃ l' n', applyAllPartial ge cname (scan A0) (scan B0) todo l n = (l', n', true) ∧
-        RunInv ge cname A0 B0 plan l' := by
-  intro todo
-  induction todo with
-  | nil =>
-    intro done l n hp inv
-    simp only [List.append_nil] at hp
-    subst hp
-    exact ⟨l, n, rfl, inv⟩
-  | cons e rest ih =>
-    intro done l n hp inv
-    obtain ⟨p, act⟩ := e
+    (hnd : (plan.map (·.1)).Nodup) (nnc : NoNameClash ge cname A0 B0 plan)
+    (done rest : List (P × Action)) (p : P) (act : Action) (l : Live P C)
+    (hp : plan = done ++ (p, act) :: rest) (inv : RunInv ge cname A0 B0 done l) :
+    ∃ l' c, apply ge cname (scan A0) (scan B0) l p act = some (l', c) ∧
+      RunInv ge cname A0 B0 (done ++ [(p, act)]) l' ∧ get l.A p = get A0 p ∧ get l.B p = get B0 p := by
     have hmem : (p, act) ∈ plan := by rw [hp]; simp
     have hdone_mem : ∀ x, x ∈ done → x ∈ plan := fun x hx => by rw [hp]; exact List.mem_append_left _ hx
     -- p is a fresh path
@@ -97,12 +97,7 @@ theorem run_plan (ge : C → C → Bool) (cname : P → C → P) (A0 B0 : Tree P
     obtain ⟨l', c, happ, hloc, hpA, hpB, hcopy⟩ :=
       apply_local ge cname (scan A0) (scan B0) l p act (get A0 p) (get B0 p) hxA hyB
         (lookup_scan A0 p) (lookup_scan B0 p) hsrc hcc
-    have hstep : applyAllPartial ge cname (scan A0) (scan B0) ((p, act) :: rest) l n =
-        applyAllPartial ge cname (scan A0) (scan B0) rest l' (if c then n + 1 else n) := by
-      simp [applyAllPartial, happ]
-    rw [hstep]
-    apply ih (done ++ [(p, act)]) l' _ (by rw [hp]; simp)
-    refine ⟨?_, ?_, ?_⟩
+    refine ⟨l', c, happ, ⟨?_, ?_, ?_⟩, hxA, hyB⟩
     · -- untouched
       intro q hq
       have hq1 : ¬ touched ge cname A0 B0 done q := by
@@ -155,5 +150,32 @@ theorem run_plan (ge : C → C → Bool) (cname : P → C → P) (A0 B0 : Tree P
         obtain ⟨xa, yb, e1, e2, e3, e4⟩ := ccName_some ge cname p' act' _ _ ln hc
         obtain ⟨h1, h2⟩ := hcopy ln xa yb e1 e2 e3 e4
         exact ⟨xa, yb, e1, e2, h1, h2⟩
+
+
+theorem run_plan (ge : C → C → Bool) (cname : P → C → P) (A0 B0 : Tree P C) (z : P → Option (Fp C))
+    (plan : List (P × Action))
+    (hact : ∀ p act, (p, act) ∈ plan → act = reconcilePath ((get A0 p).map mkFp) ((get B0 p).map mkFp) (z p))
+    (hlive : ∀ p act, (p, act) ∈ plan → get A0 p ≠ none ∨ get B0 p ≠ none)
+    (hnd : (plan.map (·.1)).Nodup) (nnc : NoNameClash ge cname A0 B0 plan) :
+    ∀ (todo done : List (P × Action)) (l : Live P C) (n : Nat), plan = done ++ todo →
+      RunInv ge cname A0 B0 done l →
+      ∃ l' n', applyAllPartial ge cname (scan A0) (scan B0) todo l n = (l', n', true) ∧
+        RunInv ge cname A0 B0 plan l' := by
+  intro todo
+  induction todo with
+  | nil =>
+    intro done l n hp inv
+    simp only [List.append_nil] at hp
+    subst hp
+    exact ⟨l, n, rfl, inv⟩
+  | cons e rest ih =>
+    intro done l n hp inv
+    obtain ⟨p, act⟩ := e
+    obtain ⟨l', c, happ, inv', _, _⟩ := run_step ge cname A0 B0 z plan hact hlive hnd nnc done rest p act l hp inv
+    have hstep : applyAllPartial ge cname (scan A0) (scan B0) ((p, act) :: rest) l n =
+        applyAllPartial ge cname (scan A0) (scan B0) rest l' (if c then n + 1 else n) := by
+      simp [applyAllPartial, happ]
+    rw [hstep]
+    exact ih (done ++ [(p, act)]) l' _ (by rw [hp]; simp) inv'
 
 end Copia.Bisync
